@@ -6,11 +6,13 @@
    a sweep that decides nothing forces the first undecided statement to 16 bits.
    Written as a step function on a state record, used three ways: model checking (MC_AsmSizing),
    replay of explored programs, and validation of the hook events logged by the real loop (Tr_Sizing).
-   item = [k |-> "fix", sz, tgt |-> 0, base |-> 0]  |  [k |-> "pcr", sz |-> 0, tgt, base]   (tgt: 1-based statement index) *)
+   item = [k |-> "fix", sz, tgt |-> 0, base |-> 0, mx]  |  [k |-> "pcr", sz |-> 0, tgt, base, mx |-> 0]   (tgt: 1-based statement index;
+   mx: the max_size the implementation keeps for an already sized statement - for a constant-offset indexed operand it is
+   SMALLER than the size, which is why the upper estimate takes the larger of the two) *)
 EXTENDS Integers, Sequences, FiniteSets, SequencesExt, TLC
 
 Init0(prog) == [size   |-> [i \in DOMAIN prog |-> IF prog[i].k = "fix" THEN prog[i].sz ELSE prog[i].base],
-                maxsz  |-> [i \in DOMAIN prog |-> IF prog[i].k = "fix" THEN prog[i].sz ELSE prog[i].base + 2],
+                maxsz  |-> [i \in DOMAIN prog |-> IF prog[i].k = "fix" THEN prog[i].mx ELSE prog[i].base + 2],
                 fixed  |-> [i \in DOMAIN prog |-> prog[i].k = "fix"],
                 pc |-> 1, progress |-> FALSE, phase |-> "sweep", sweeps |-> 0]
 RECURSIVE SumR(_, _, _)
